@@ -5,7 +5,8 @@
    resulting state; an overlap loop that runs to its end leaves pacman's vitals alone. *)
 From Coq Require Import ZArith List Bool Arith Lia.
 From Abm Require Import Base.Sx Grid.Overlap Grid.Grid Grid.Move Grid.Vis Grid.Observe Grid.Play
-  Grid.BattleSim Grid.PacmanSim Ctl.Managers Proofs.Grid_proofs Proofs.Move_proofs.
+  Grid.BattleSim Grid.PacmanSim Ctl.Managers Proofs.Grid_proofs Proofs.Move_proofs
+  Proofs.Managers_proofs Proofs.Managers_hist Proofs.PacmanSim_proofs.
 Import ListNotations.
 Open Scope Z_scope.
 
@@ -380,6 +381,55 @@ Theorem pm_reset_chk_prec cf st prev :
   chk_prec cf prev 0 (ps_grid (pm_reset cf st)) (ps_count (pm_reset cf st)) = 0.
 Proof.
   intros Hg. unfold chk_prec. rewrite Hg, pm_reset_count. reflexivity.
+Qed.
+
+(* ---- lifted to one manager call (any manager kind, any call, in or out of protocol) -------------- *)
+Lemma pm_obs_bad cf st i : ps_bad (snd (pm_obs cf st i)) = false -> ps_bad st = false.
+Proof.
+  unfold pm_obs. destruct (nth_error (pc_kinds cf) i) as [[| |v|v]|]; cbn; auto; try discriminate;
+    destruct (obs_absolute _ _ _ _ _); cbn; auto; discriminate.
+Qed.
+
+Lemma pm_reward_bad cf st i : ps_bad (snd (pm_reward cf st i)) = false -> ps_bad st = false.
+Proof.
+  unfold pm_reward. destruct (p_learning cf i); [|cbn; discriminate].
+  destruct (nth_error (ps_rew st) i); cbn; auto; discriminate.
+Qed.
+
+Lemma p_greach_bad f cf s s' :
+  greach (pacman_sim_gen f cf) s s' -> ps_bad s' = false -> ps_bad s = false.
+Proof.
+  induction 1 as [s|s s' a _ IH|s s' a _ IH]; intro H; [exact H| |];
+    cbn [pacman_sim_gen sim_obs sim_reward] in IH.
+  - eapply pm_obs_bad, IH, H.
+  - eapply pm_reward_bad, IH, H.
+Qed.
+
+Theorem pacman_call_clauses f cf k m c r m' :
+  pac_not_baddie cf ->
+  do_call (pacman_sim_gen f cf) k m c = (r, m') ->
+  ps_bad (m_sim m) = false -> ps_bad (m_sim m') = false ->
+  (ps_grid (m_sim m') = ps_grid (m_sim m) /\ ps_count (m_sim m') = ps_count (m_sim m)) \/
+  (ps_grid (m_sim m') = ps_grid (pm_reset cf (m_sim m)) /\ ps_count (m_sim m') = 0) \/
+  (exists l,
+     ps_grid (m_sim m') = ps_grid (pm_step_gen f cf (m_sim m) l) /\
+     shares_b cf (ps_grid (m_sim m')) = false /\
+     (pac_active cf (ps_grid (m_sim m)) = true ->
+      ps_count (m_sim m') = if pac_active cf (ps_grid (m_sim m')) then ps_count (m_sim m) + 1
+                            else ps_count (m_sim m))).
+Proof.
+  intros NB E Hb Hb'.
+  destruct (do_call_sim_reach (pacman_sim_gen f cf) k m c r m' E) as [Q|[Q|[l Q]]].
+  - left. rewrite Q. auto.
+  - right; left. cbn [pacman_sim_gen sim_reset] in Q.
+    destruct (p_greach_frame f cf _ _ Q) as (E1 & _ & E3).
+    rewrite E1, E3, pm_reset_count. auto.
+  - right; right. exists l. cbn [pacman_sim_gen sim_step] in Q.
+    destruct (p_greach_frame f cf _ _ Q) as (E1 & _ & E3).
+    pose proof (p_greach_bad f cf _ _ Q Hb') as Hs.
+    rewrite E1, E3. split; [reflexivity|]. split.
+    + apply pm_step_clause_2611; assumption.
+    + intro Ha. apply pm_step_clause_2612; assumption.
 Qed.
 
 (* along the managers' reachability relation of the simulation (steps, getters, resets):
